@@ -24,6 +24,7 @@ PRE = ('From Coq Require Import List ZArith Bool.\n'
 PATHS = [[0], [0, 1], [1], [0, 1, 0], [2], [5]]
 SELFCOPY = [5]                      # index into PATHS: class U5 defines __deepcopy__ returning self
 NEW_NAME = 90
+PRIVATE_NAME = 91                   # rendered with a leading underscore
 UNKNOWN_FIELD = 77
 BAD_KINDS = ('keys', 'values', 'items', 'iter')
 OPTS = ('type_safe', 'order', 'kw_only', 'slots')
@@ -492,7 +493,7 @@ def gen_case(rng, tier, stream):
             branches.append(br)
     # frozen probes: every field and a new name, on the instance (and its class as registered)
     probe = []
-    for n in [f['name'] for f in fields] + [NEW_NAME]:
+    for n in [f['name'] for f in fields] + [NEW_NAME, PRIVATE_NAME]:
         probe.append(['setattr', 0, n, L.val(rng.choice([['int', 5], ['none'], ['str', [98]]]))])
         probe.append(['delattr', 0, n])
     probe.append(['setattr', 1, NEW_NAME, L.val(['int', 5])])
@@ -750,6 +751,14 @@ def evaluate(ck, cases):
     model = [None] * len(cases)
     if ck.model_ok and terms:
         res = ck.coq_eval(PRE, terms, chunk=60, timeout=1500)
+        stale = [o for o in ck.obligations if o['name'] == 'coq-eval' and not o['ok'] and 'inconsistent assumptions' in o['detail']]
+        if stale:
+            # another contributor rebuilt a library of the cone between our build and this evaluation (shared tree):
+            # rebuild the cone once and evaluate again
+            ck.obligations = [o for o in ck.obligations if o not in stale]
+            with BuildLock():
+                sh(['make', '-j%d' % NPROC] + MODEL, cwd=COQ, timeout=1500)
+            res = ck.coq_eval(PRE, terms, chunk=60, timeout=1500)
         for i, r in zip(idx, res):
             model[i] = r
     return impl, model
